@@ -1,4 +1,6 @@
 """C05 — Abstraction is free: transparency pre-conditions of the meaning-preserving rewrites."""
+import json
+import re
 from facts import hir_walk, callee_def, callee_of, variant_of
 import pathrules as P
 import mirflow as MF
@@ -307,7 +309,39 @@ def r7_var_uniform(c, facts, rule='C05.R7'):
         c.ok(R, {'kind checks': len(adm) + len(rej), 'all': 'admit Var' if adm else 'reject Var', 'undecided': unk})
 
 
+# frozen: the positions of the grammar that take either kind of identifier (a value name or an @reference), with the
+# number of such positions per production.  One-sided, like IDENT-LEXEME: narrowing one of them to a single kind rejects
+# programs that were accepted (`m.@item` after a group with an @reference was moved into a module imported `as m`).
+IDENT_POSITIONS = {
+    'oal_syntax::parser::parse_variable': (2, 'the qualifier and the member of `q.name`, or the bare name'),
+    'oal_syntax::parser::parse_declaration': (1, 'the declared name'),
+    'oal_syntax::parser::parse_qualifier': (1, 'the name after `as`'),
+}
+
+
+def r14_ident_positions(c, facts, rule='C05.R14'):
+    R = c.rule(rule, 'IDENT-POSITIONS: every position of the grammar that took either kind of identifier still does (parse_identifier)')
+    for q, (want, what) in sorted(IDENT_POSITIONS.items()):
+        fn = c.anchor(R, q)
+        n = sum(len(P.call_blocks(g, 'parser::parse_identifier')) for g in facts.family(fn) if g.mir and not g.qname.endswith('::parse_identifier'))
+        inst = {'production': q.split('::')[-1], 'identifier positions': n, 'expected at least': want, 'position': what}
+        if n >= want:
+            c.ok(R, inst)
+        else:
+            c.bad(R, '%s:identifier-position-narrowed' % q.split('::')[-1], '%s takes an identifier of either kind at %d position(s) instead of %d (%s): a program with an @reference there - or one rewritten into that form - is a syntax error' % (q, n, want, what), **inst)
+    pid = c.anchor(R, 'oal_syntax::parser::parse_identifier')
+    kinds = set()
+    for g in facts.family(pid):
+        if g.hir:
+            kinds |= set(re.findall(r'TokenKind::(Identifier\w+)', json.dumps(g.hir['body'])))
+    if kinds >= {'IdentifierValue', 'IdentifierReference'}:
+        c.ok(R, {'parse_identifier': sorted(kinds)})
+    else:
+        c.bad(R, 'parse_identifier:kinds:%s' % ','.join(sorted(kinds)), 'parse_identifier accepts only %s' % sorted(kinds))
+
+
 def run(c, facts):
+    c.run(r14_ident_positions, facts)
     import c10
     c.run(r7_var_uniform, facts)
     c.run(r8_roots, facts)
